@@ -504,7 +504,7 @@ def main():
         if trait in ("Future", "Stream"):
             futures.add(q)
             continue
-        if trait not in ("Send", "Sync"):
+        if trait not in ("Send", "Sync", "Unpin"):
             continue
         # map impl parameter names to positions in the target's argument list
         pos = {}
